@@ -272,6 +272,7 @@ def _main(prop_id: str, args, seed: int, work: str, t0: float) -> int:
         "replayed_files": replayed,
         "known_finding_hits": dict(rec.known_hits),
         "exhaustive": bool(exhaustive),
+        "label_floor_misses": floor_msgs,
     }
     if hasattr(mod, "extra_coverage"):
         coverage.update(mod.extra_coverage(ctx, rec))
@@ -304,10 +305,11 @@ def _main(prop_id: str, args, seed: int, work: str, t0: float) -> int:
             print("FAIL %s" % json.dumps(fail)[:1500])
             print("VIOLATION property=%s replay=%s" % (prop_id, path))
         return 1
-    if floor_msgs:
-        for m in floor_msgs:
-            print("HARNESS-ERROR property=%s vacuous generator: %s" % (prop_id, m))
-        return 2
+    # A label below its floor is reported (here and in the evidence) but does not change the verdict: with a few hundred cases a
+    # rare class can be absent at some seed by chance, and a check must not fail on the unchanged tree for that reason. A generator
+    # that produces nothing non-trivial at all is still a harness fault (below).
+    for m in floor_msgs:
+        print("NOTE property=%s label floor missed: %s" % (prop_id, m))
     if rec.evaluations == 0 or rec.distinct_nontrivial < 2:
         print("HARNESS-ERROR property=%s nothing non-trivial was explored" % prop_id)
         return 2
